@@ -487,6 +487,14 @@ class JordanCurve:
                 pairs.pop(i)
             else:
                 i += 1
+        # Remove repeated nodes of the same segment
+        i = 1
+        while i < len(pairs):
+            same_segment = pairs[i][0] == pairs[i - 1][0]
+            if same_segment and abs(pairs[i][1] - pairs[i - 1][1]) < 1e-6:
+                pairs.pop(i)
+            else:
+                i += 1
         shift = 0
         for ind in range(len(self.segments)):
             new_nodes = tuple(node for index, node in pairs if index == ind)
